@@ -244,6 +244,18 @@ func (matrix *DenseInt32Matrix) Tip() {
   matrix.rowMax, matrix.colMax = matrix.colMax, matrix.rowMax
 }
 func (matrix *DenseInt32Matrix) AsVector() Vector {
+  if matrix.cols < matrix.colMax || matrix.rows < matrix.rowMax {
+    // this is a view on a larger matrix, copy the elements
+    // that belong to it
+    n, m := matrix.Dims()
+    v := make([]int32, n*m)
+    for i := 0; i < n; i++ {
+      for j := 0; j < m; j++ {
+        v[i*m + j] = matrix.values[matrix.index(i, j)]
+      }
+    }
+    return DenseInt32Vector(v)
+  }
   return DenseInt32Vector(matrix.values)
 }
 func (matrix *DenseInt32Matrix) storageLocation() uintptr {
@@ -333,7 +345,7 @@ func (matrix *DenseInt32Matrix) IsSymmetric(epsilon float64) bool {
   return true
 }
 func (matrix *DenseInt32Matrix) AsConstVector() ConstVector {
-  return DenseInt32Vector(matrix.values)
+  return matrix.AsVector()
 }
 /* implement ScalarContainer
  * -------------------------------------------------------------------------- */
